@@ -186,6 +186,17 @@ func body(r Reg) string {
 			fmt.Fprintf(&b, "\t%s := theCt.QueryParamInt64(c, %q)\n", v, name)
 		case "generic":
 			fmt.Fprintf(&b, "\t%s, err%d := QueryParamInt[IdDossier](c, %q)\n\tif err%d != nil {\n\t\treturn err%d\n\t}\n", v, i, name, i, i)
+		case "late": // read after a nested block that answers early (with the handler's own kind of answer)
+			early := "return nil"
+			switch r.Ret {
+			case "json", "jsonlit":
+				early = "return c.JSON(200, Result{})"
+			case "pretty":
+				early = "return c.JSONPretty(200, map[string][]int{}, \" \")"
+			case "blob":
+				early = "return c.Blob(200, \"application/pdf\", nil)"
+			}
+			fmt.Fprintf(&b, "\tif len(fmt.Sprint()) == 1 {\n\t\t%s\n\t}\n\t%s := c.QueryParam(%q)\n", early, v, name)
 		case "pkggeneric": // the same helper, referenced through a package qualifier
 			fmt.Fprintf(&b, "\t%s, err%d := inner.QueryParamInt[IdDossier](c, %q)\n\tif err%d != nil {\n\t\treturn err%d\n\t}\n", v, i, name, i, i)
 		}
